@@ -159,7 +159,7 @@ var clauseKeywords = map[string]bool{
 	"requires": true, "ensures": true, "loop": true, "nullable": true, "at": true,
 	"ghost": true, "assigns": true, "modular": true, "inline": true, "trusted": true,
 	"mode": true, "alloc_bound": true, "pure": true, "protected_by": true, "immutable": true,
-	"inv": true, "opaque": true, "havoc": true, "noinline": true, "bounded": true, "returns_fresh": true,
+	"inv": true, "opaque": true, "havoc": true, "noinline": true, "bounded": true, "returns_fresh": true, "fresh_result": true, "deep_closedness": true,
 	"sweep": true, "cover": true, "replay_hint": true, "never_writes": true, "frame_only": true, "reveal": true, "iface_calls_only": true, "direct_calls_only": true,
 	"requires_held": true, "never_calls": true, "spawn_never_writes": true, "unshared_receiver": true, "sync": true, "owner_lock": true, "complete": true,
 	"rep_invariant": true, "nested_closedness": true, "dominated": true, "writes_unconditionally": true, "deterministic": true,
